@@ -156,6 +156,7 @@ package chain
 //@ spec rec func actWire(acts []Action, n int) int = ite(n <= 0, 0, actWire(acts, n - 1) + fieldSize(len(Action.Bytes(acts[n - 1]))))
 //@ spec rec func actCompute(acts []Action, n int, r Rules) int = ite(n <= 0, 0, actCompute(acts, n - 1, r) + Action.ComputeUnits(acts[n - 1], r))
 
+//@ spec rec func storSum(ch []uint16, n int, keyUnits int, valueUnits int) int = ite(n <= 0, 0, storSum(ch, n - 1, keyUnits, valueUnits) + keyUnits + ch[n - 1] * valueUnits)
 // the size of the signed transaction on the wire (trusted canoto layout of SerializeTx: Base as an
 // embedded message field when non-empty, one repeated-bytes field per action, Auth when non-empty)
 //@ spec func txWire(baseSize int, acts []Action, n int, authLen int) int = ite(baseSize != 0, fieldSize(baseSize), 0) + actWire(acts, n) + ite(authLen != 0, fieldSize(authLen), 0)
@@ -169,12 +170,20 @@ package chain
 
 //@ func EstimateUnits props C14
 //@   requires len(actions) <= 256 && fst(AuthFactory.MaxUnits(authFactory)) <= 4294967296
-//@   reveal actWire actCompute estBandwidth fieldSize varintLen
+//@   reveal actWire actCompute estBandwidth fieldSize varintLen storSum
 //@   loop 1 invariant 0 <= actWire(actions, idx1) && actWire(actions, idx1) <= idx1 * 140737488355400
 //@   loop 1 invariant 0 <= idx1 && idx1 <= len(actions) && bandwidth == MaxBaseSize + 1 + actWire(actions, idx1) && !isnil(computeOp)
 //@   loop 1 invariant computeOp.err == nil ==> computeOp.v == Rules.GetBaseComputeUnits(r) + actCompute(actions, idx1, r)
 //@   loop 1 invariant computeOp.err != nil ==> Rules.GetBaseComputeUnits(r) + actCompute(actions, idx1, r) > MAX
-//@   loop 2 invariant !isnil(readsOp) && !isnil(allocatesOp) && !isnil(writesOp)
+//@   loop 2 invariant !isnil(readsOp) && !isnil(allocatesOp) && !isnil(writesOp) && 0 <= idx2 && idx2 <= len(stateKeysMaxChunks)
+// storage dimensions: each declared key occurrence costs its key units plus chunks x value units, summed
+// exactly (an overflow is reported as an error, never wrapped)
+//@   loop 2 invariant readsOp.err == nil ==> readsOp.v == storSum(stateKeysMaxChunks, idx2, Rules.GetStorageKeyReadUnits(r), Rules.GetStorageValueReadUnits(r))
+//@   loop 2 invariant allocatesOp.err == nil ==> allocatesOp.v == storSum(stateKeysMaxChunks, idx2, Rules.GetStorageKeyAllocateUnits(r), Rules.GetStorageValueAllocateUnits(r))
+//@   loop 2 invariant writesOp.err == nil ==> writesOp.v == storSum(stateKeysMaxChunks, idx2, Rules.GetStorageKeyWriteUnits(r), Rules.GetStorageValueWriteUnits(r))
+//@   at call 30 assert err == nil ==> reads == storSum(stateKeysMaxChunks, len(stateKeysMaxChunks), Rules.GetStorageKeyReadUnits(r), Rules.GetStorageValueReadUnits(r))
+//@   at call 31 assert err == nil ==> allocates == storSum(stateKeysMaxChunks, len(stateKeysMaxChunks), Rules.GetStorageKeyAllocateUnits(r), Rules.GetStorageValueAllocateUnits(r))
+//@   at call 32 assert err == nil ==> writes == storSum(stateKeysMaxChunks, len(stateKeysMaxChunks), Rules.GetStorageKeyWriteUnits(r), Rules.GetStorageValueWriteUnits(r))
 //@   ensures err == nil ==> result0[0] == estBandwidth(actions, len(actions), fst(AuthFactory.MaxUnits(authFactory)))
 //@   ensures err == nil ==> result0[1] == Rules.GetBaseComputeUnits(r) + actCompute(actions, len(actions), r) + snd(AuthFactory.MaxUnits(authFactory))
 
